@@ -6,6 +6,7 @@ import (
 	"sort"
 	"strings"
 	"time"
+	"unsafe"
 
 	"github.com/mdzio/go-mqtt/message"
 	"github.com/mdzio/go-mqtt/service"
@@ -81,6 +82,9 @@ func (w *ClientWorld) StartConnect(cid string, keepAlive uint16, connectTimeout 
 	vsched.Go("app-connect", func() {
 		w.ConnErr = w.Cl.Connect("tcp://"+addr, cm)
 		w.ConnDone = true
+		// (race builds: the application uses the client only after Connect has returned;
+		// the harness threads that do so synchronise with this one here)
+		vsched.RaceRelease(unsafe.Pointer(w))
 	})
 	c, err := w.Ln.Accept()
 	if err != nil {
@@ -115,6 +119,7 @@ func (w *ClientWorld) Connected(cid string) bool {
 	}
 	w.Srv.Send(&refcodec.Packet{Type: refcodec.CONNACK})
 	w.Settle()
+	vsched.RaceAcquire(unsafe.Pointer(w))
 	if !w.ConnDone || w.ConnErr != nil {
 		vsched.Failf("Client.Connect did not succeed after CONNACK code 0: done=%v err=%v", w.ConnDone, w.ConnErr)
 		return false
